@@ -51,7 +51,10 @@ MANIFEST = {
             "replying will of an INITed binary connection recurses without bound; replies of connections that never sent "
             "INIT go to whoever registered the all-zero client id; the registration of a client id is erased when its "
             "youngest connection ends although an older one still announces it) with witnesses replayed on the Go code; "
-            "the guarded theorems are what does hold.",
+            "the guarded theorems are what does hold.  Connection kinds outside the model (sessions nested by the binary ADMIN "
+            "command; connections accepted by a follower that is promoted before they end) are decided by the sub-check "
+            "checks/C18_wills.py: fixed scenarios on real slock processes with the will clause of the property as oracle "
+            "(runtime check, no theorem; it found the two defects repaired by 47839ae and e3b701d).",
     "note": "partial: goroutine interleaving of Close with asynchronous replies only at step granularity; TCP and the "
             "stream buffers are replaced by an in-memory net.Conn; the tie is a per-run correspondence check.",
     "technique": "executable Gallina model + induction over action lists; extraction to OCaml; in-package Go harness driving "
@@ -1100,7 +1103,7 @@ def run(ctx):
         "not modelled: true interleaving of Close with an asynchronous reply (step granularity only: a reply is routed before a Close, while it drains its wills -- "
         "closed = true, still in SLock.clients --, or after it; not between two statements of Close), TCP / Stream buffering, binary buffered-write mode, "
         "a second database (only DbId 0 exists; DbId 0xff and UNLOCKs for databases never created are modelled, a LOCK for DbId 1..254 -- which creates one -- and "
-        "SELECT on a text connection are outside the fragment and never generated), value data, ADMIN sub-protocol, transparency (follower) protocols, "
+        "SELECT on a text connection are outside the fragment and never generated), value data, ADMIN sub-protocol and transparency (follower) protocols (their will clause: sub-check C18_wills, process-level scenarios only), "
         "client-chosen RequestId 0, close of a text connection that is parked on a waiting request",
         "monitor: a reply is known to be due when a queued request leaves the wait queue between two census snapshots (grant or timeout); expiry notices and the "
         "immediate answers of a closed connection's own wills are judged only when they are seen (routing) or through their engine effect; `replay_wills` "
@@ -1118,7 +1121,11 @@ def run(ctx):
         "race_scenarios": len(race_cases), "race_scenarios_with_the_interleaving_taken": race_fired,
         "switches_in_force": flags, "coq_seconds": coq_s, "impl_seconds": round(runner.impl_s, 1), "model_seconds": round(runner.model_s, 1),
     }
+    if not getattr(ctx, "replay", None):
+        from checks import C18_wills
+        vlib.run_sub(ctx, "C18_wills", C18_wills)
+        vlib.merge_sub_evidence(cov, ["C18_wills"])
     return ctx.finish(cov, assumptions=[
         "atomicity: one client command / one sweep / one Close (including its will loop) is one step; the goroutine race between Close and a concurrent asynchronous reply is explored at that granularity only",
-        "single shard, one database (DbId 0), leader role",
+        "single shard, one database (DbId 0), leader role (sub-check C18_wills: ADMIN-nested sessions and a follower that becomes leader, fixed scenarios on real processes)",
     ])
